@@ -96,3 +96,10 @@ add("C14",
     "Weaker than the other checks: strings are concrete per path (arbitrary symbolic strings do not close through these encoders), so z3 only enumerates the index space. Trusted: stdlib html.parser / urllib.parse / ElementTree as independent readers.",
     "DESIGN.md 3/C14")
 NOT_APPLICABLE.pop("C14", None)
+
+add("C15",
+    "CrossHair-driven exploration of RSACrypto.get_signer / RSASigner.sign / verify interleavings (symbolic schedules of three entities) and of http_redirect_message + verify_redirect_signature under single-parameter mutations, with an ideal signature scheme",
+    "Every schedule of up to 4 (quick) / 5 (thorough) get_signer/sign steps by three entities with distinct keys: each signature is made with the requesting entity's key and verifies under no other; a signed redirect verifies iff unmutated and under the signer's key, for 13 mutations x 5 algorithms x 3 RelayStates x request/response.",
+    "Trusted: CrossHair/z3; ideal signature scheme replacing the RSA primitives; call-granularity interleavings.",
+    "DESIGN.md 3/C15")
+NOT_APPLICABLE.pop("C15", None)
